@@ -121,6 +121,90 @@ def register(E):
         return False
     B['slice::contains'] = slice_contains
 
+    def binary_search(e, a, c):
+        # std's algorithm (branchless variant of current toolchains), replicated step by step so that
+        # the result on an *unsorted* slice is the one the real code gets
+        v = deref(a[0])
+        key = deref(a[1])
+        size = len(v.items)
+        if size == 0:
+            return err(0)
+        base = 0
+        while size > 1:
+            half = size // 2
+            mid = base + half
+            if e.cmp3(e, v.items[mid], key) <= 0:
+                base = mid
+            size -= half
+        r = e.cmp3(e, v.items[base], key)
+        if r == 0:
+            return ok(base)
+        return err(base + (1 if r < 0 else 0))
+    B['slice::binary_search'] = binary_search
+
+    def slice_sort(e, a, c):
+        v = deref(a[0])
+        items = list(v.items)
+        out = []
+        for x in items:       # insertion sort driven by the element type's own ordering
+            i = 0
+            while i < len(out) and e.cmp3(e, out[i], x) <= 0:
+                i += 1
+            out.insert(i, x)
+        v.items[:] = out
+        return UNIT
+    B['slice::sort'] = slice_sort
+    B['slice::sort_unstable'] = slice_sort
+
+    def vec_pop(e, a, c):
+        v = deref(a[0])
+        return some(v.items.pop()) if v.items else none()
+    B['Vec::pop'] = vec_pop
+
+    def vec_clear(e, a, c):
+        deref(a[0]).items[:] = []
+        return UNIT
+    B['Vec::clear'] = vec_clear
+
+    def vec_truncate(e, a, c):
+        v = deref(a[0])
+        n = e.choose(a[1], list(range(len(v.items) + 1))) if is_sym(a[1]) else a[1]
+        del v.items[n:]
+        return UNIT
+    B['Vec::truncate'] = vec_truncate
+
+    def vec_extend(e, a, c):
+        v = deref(a[0])
+        src = a[1]
+        if isinstance(src, (VecV, Ref)) and isinstance(deref(src), VecV):
+            v.items.extend(clone_val(x) for x in deref(src).items)
+        else:
+            v.items.extend(drain(e, into_iter(e, [src], '')))
+        return UNIT
+    B['Vec::extend'] = vec_extend
+    B['Extend::extend'] = vec_extend
+    B['Vec::extend_from_slice'] = vec_extend
+
+    def vec_swap_remove(e, a, c):
+        v = deref(a[0])
+        idx = e.choose(a[1], list(range(len(v.items) + 1)))
+        if idx >= len(v.items):
+            raise Panic('swap_remove index out of bounds')
+        x = v.items[idx]
+        v.items[idx] = v.items[-1]
+        v.items.pop()
+        return x
+    B['Vec::swap_remove'] = vec_swap_remove
+
+    def slice_first(e, a, c):
+        v = deref(a[0])
+        return some(Ref(v.items, 0)) if v.items else none()
+    B['slice::first'] = slice_first
+    B['Vec::contains'] = lambda e, a, c: slice_contains(e, a, c)
+    B['slice::to_vec'] = lambda e, a, c: VecV([clone_val(x) for x in deref(a[0]).items])
+    B['Vec::as_slice'] = lambda e, a, c: a[0]
+    B['Vec::as_mut_slice'] = lambda e, a, c: a[0]
+
     # ------------------------------------------------------------------ iterators
     def into_iter(e, a, c):
         x = a[0]
@@ -132,6 +216,10 @@ def register(E):
             v = deref(x)
             if isinstance(v, VecV):
                 return IterV('slice', vec=v, i=0, j=len(v.items), by_ref=True)
+        if isinstance(deref(x), MapV):
+            m = deref(x)
+            is_set = all(v is UNIT for v in m.vals) and len(m.vals) > 0 and 'Set' in c
+            return (e.set_into_iter if is_set else e.map_into_iter)(e, [x], c)
         if isinstance(x, Agg) and x.name == 'Option':
             v = VecV(list(x.fields) if x.variant == 1 else [])
             return IterV('slice', vec=v, i=0, j=len(v.items), by_ref=False)
@@ -226,6 +314,126 @@ def register(E):
     B['Iterator::flatten'] = lambda e, a, c: IterV('flatten', inner=a[0], cur=None)
     B['Iterator::flat_map'] = lambda e, a, c: IterV('flatten', inner=IterV('map', inner=a[0], f=a[1]), cur=None)
 
+    def it_count(e, a, c):
+        return len(drain(e, deref(a[0]) if not isinstance(a[0], IterV) else a[0]))
+    B['Iterator::count'] = it_count
+
+    def it_all(e, a, c):
+        it = deref(a[0])
+        while True:
+            x = it_next(e, it)
+            if x.variant == 0:
+                return True
+            if not e.branch(e.call_value(a[1], [x.fields[0]])):
+                return False
+    B['Iterator::all'] = it_all
+
+    def it_last(e, a, c):
+        items = drain(e, a[0])
+        return some(items[-1]) if items else none()
+    B['Iterator::last'] = it_last
+
+    def it_sum(e, a, c):
+        acc = 0
+        for x in drain(e, a[0]):
+            acc = acc + deref(x)
+        return acc
+    B['Iterator::sum'] = it_sum
+
+    def it_min(e, a, c):
+        items = drain(e, a[0])
+        if not items:
+            return none()
+        m = items[0]
+        for x in items[1:]:
+            if is_sym(x) or is_sym(m):
+                m = z3.If(x < m, x, m)
+            elif x < m:
+                m = x
+        return some(m)
+    B['Iterator::min'] = it_min
+    B['Iterator::skip'] = lambda e, a, c: IterV('slice', vec=VecV(drain(e, a[0])[a[1]:]), i=0, j=max(0, len(drain.last) - a[1]) if False else 0, by_ref=False) if False else _skip(e, a)
+    B['Iterator::take'] = lambda e, a, c: _take(e, a)
+    B['Iterator::zip'] = lambda e, a, c: _zip(e, a)
+
+    def _skip(e, a):
+        items = drain(e, a[0])[a[1]:]
+        return IterV('slice', vec=VecV(items), i=0, j=len(items), by_ref=False)
+
+    def _take(e, a):
+        items = drain(e, a[0])[:a[1]]
+        return IterV('slice', vec=VecV(items), i=0, j=len(items), by_ref=False)
+
+    def _zip(e, a):
+        x = drain(e, a[0])
+        y = drain(e, into_iter(e, [a[1]], ''))
+        items = [Agg('tuple', None, [p, q]) for p, q in zip(x, y)]
+        return IterV('slice', vec=VecV(items), i=0, j=len(items), by_ref=False)
+
+    def group_map_by(e, a, c):
+        m = MapV()
+        m.hashed = True
+        for x in drain(e, a[0]):
+            cell = [x]
+            k = e.call_value(a[1], [Ref(cell, 0)])
+            i, found = locate(e, m, k)
+            if not found:
+                m.keys.insert(i, k)
+                m.vals.insert(i, VecV())
+            m.vals[i].items.append(x)
+        return m
+    B['Itertools::into_group_map_by'] = group_map_by
+
+    def _sorted_items(e, items, keyf=None, cmpf=None):
+        out = []
+        for x in items:            # stable insertion sort driven by the real comparison
+            i = len(out)
+            while i > 0:
+                y = out[i - 1]
+                if cmpf is not None:
+                    r = e.call_value(cmpf, [Ref([y], 0), Ref([x], 0)])
+                    gt = (r.variant == 1) if isinstance(r, Agg) else False
+                else:
+                    ky = e.call_value(keyf, [Ref([y], 0)]) if keyf is not None else y
+                    kx = e.call_value(keyf, [Ref([x], 0)]) if keyf is not None else x
+                    gt = e.cmp3(e, ky, kx) > 0
+                if not gt:
+                    break
+                i -= 1
+            out.insert(i, x)
+        return out
+
+    def it_sorted(e, a, c):
+        items = _sorted_items(e, drain(e, a[0]))
+        return IterV('slice', vec=VecV(items), i=0, j=len(items), by_ref=False)
+    B['Itertools::sorted'] = it_sorted
+
+    def it_sorted_by_key(e, a, c):
+        items = _sorted_items(e, drain(e, a[0]), keyf=a[1])
+        return IterV('slice', vec=VecV(items), i=0, j=len(items), by_ref=False)
+    B['Itertools::sorted_by_key'] = it_sorted_by_key
+    B['Itertools::sorted_by_cached_key'] = it_sorted_by_key
+
+    def it_sorted_by(e, a, c):
+        items = _sorted_items(e, drain(e, a[0]), cmpf=a[1])
+        return IterV('slice', vec=VecV(items), i=0, j=len(items), by_ref=False)
+    B['Itertools::sorted_by'] = it_sorted_by
+
+    def slice_sort_by_key(e, a, c):
+        v = deref(a[0])
+        v.items[:] = _sorted_items(e, list(v.items), keyf=a[1])
+        return UNIT
+    B['slice::sort_by_key'] = slice_sort_by_key
+    B['slice::sort_unstable_by_key'] = slice_sort_by_key
+    B['slice::sort_by_cached_key'] = slice_sort_by_key
+
+    def slice_sort_by(e, a, c):
+        v = deref(a[0])
+        v.items[:] = _sorted_items(e, list(v.items), cmpf=a[1])
+        return UNIT
+    B['slice::sort_by'] = slice_sort_by
+    B['slice::sort_unstable_by'] = slice_sort_by
+
     def drain(e, it):
         out = []
         while True:
@@ -319,6 +527,8 @@ def register(E):
     B['PartialOrd::partial_cmp'] = lambda e, a, c: some(ord_cmp(e, a, c))
 
     def cmp3(e, x, y):
+        if isinstance(x, Agg) and x.name == 'Reverse' and isinstance(y, Agg):
+            return -cmp3(e, x.fields[0], y.fields[0])
         if isinstance(x, Agg):
             for fx, fy in zip(x.fields, y.fields):
                 r = cmp3(e, fx, fy)
@@ -354,6 +564,27 @@ def register(E):
     B['Option::expect'] = unwrap
     B['Option::unwrap_or'] = lambda e, a, c: a[0].fields[0] if a[0].variant == 1 else a[1]
     B['Option::unwrap_or_default'] = lambda e, a, c: a[0].fields[0] if a[0].variant == 1 else VecV()
+    B['Option::ok_or'] = lambda e, a, c: ok(a[0].fields[0]) if a[0].variant == 1 else err(a[1])
+    B['Option::ok_or_else'] = lambda e, a, c: ok(a[0].fields[0]) if a[0].variant == 1 else err(e.call_value(a[1], []))
+    B['Option::cloned'] = lambda e, a, c: some(clone_val(deref(a[0].fields[0]))) if a[0].variant == 1 else none()
+    B['Option::copied'] = B['Option::cloned']
+    B['Option::map_or'] = lambda e, a, c: e.call_value(a[2], [a[0].fields[0]]) if a[0].variant == 1 else a[1]
+    B['Option::map_or_else'] = lambda e, a, c: e.call_value(a[2], [a[0].fields[0]]) if a[0].variant == 1 else e.call_value(a[1], [])
+    B['Option::as_ref'] = lambda e, a, c: (some(Ref(deref(a[0]).fields, 0)) if deref(a[0]).variant == 1 else none())
+    B['Option::as_mut'] = B['Option::as_ref']
+    B['Option::take'] = lambda e, a, c: _opt_take(a[0])
+    B['Result::is_ok'] = lambda e, a, c: deref(a[0]).variant == 0
+    B['Result::is_err'] = lambda e, a, c: deref(a[0]).variant == 1
+    B['Result::ok'] = lambda e, a, c: some(a[0].fields[0]) if a[0].variant == 0 else none()
+    B['Result::map'] = lambda e, a, c: ok(e.call_value(a[1], [a[0].fields[0]])) if a[0].variant == 0 else a[0]
+    B['Result::map_err'] = lambda e, a, c: a[0] if a[0].variant == 0 else err(e.call_value(a[1], [a[0].fields[0]]))
+    B['Result::unwrap_or'] = lambda e, a, c: a[0].fields[0] if a[0].variant == 0 else a[1]
+    B['Result::expect'] = unwrap
+
+    def _opt_take(r):
+        v = r.get()
+        r.set(none())
+        return v
     B['Option::is_some'] = lambda e, a, c: deref(a[0]).variant == 1
     B['Option::is_none'] = lambda e, a, c: deref(a[0]).variant == 0
     B['Option::map'] = lambda e, a, c: some(e.call_value(a[1], [a[0].fields[0]])) if a[0].variant == 1 else none()
@@ -428,6 +659,113 @@ def register(E):
         return IterV('slice', vec=v, i=0, j=len(v.items), by_ref=False)
     B['BTreeMap::into_values'] = into_values
 
+    # ------------------------------------------------------------------ hashed containers, clocks, process environment (C19)
+    import itertools as _it
+
+    def hash_new(e, a, c):
+        m = MapV()
+        m.hashed = True
+        return m
+    for k in ('HashMap::new', 'HashMap::default', 'HashMap::with_capacity', 'HashSet::new', 'HashSet::default', 'HashSet::with_capacity',
+              'HashMap::with_hasher', 'HashSet::with_hasher'):
+        B[k] = hash_new
+    B['HashMap::is_empty'] = B['BTreeMap::is_empty']
+    B['HashSet::is_empty'] = B['BTreeMap::is_empty']
+    B['HashMap::len'] = lambda e, a, c: len(deref(a[0]).keys)
+    B['HashSet::len'] = B['HashMap::len']
+    B['BTreeMap::len'] = B['HashMap::len']
+    B['HashMap::entry'] = B['BTreeMap::entry']
+    B['HashMap::insert'] = map_insert
+
+    def set_insert(e, a, c):
+        m = deref(a[0])
+        i, found = locate(e, m, a[1])
+        if found:
+            return False
+        m.keys.insert(i, a[1])
+        m.vals.insert(i, UNIT)
+        return True
+    B['HashSet::insert'] = set_insert
+    B['BTreeSet::insert'] = set_insert
+    B['BTreeSet::new'] = B['BTreeMap::new']
+
+    def map_get(e, a, c):
+        m = deref(a[0])
+        i, found = locate(e, m, deref(a[1]))
+        return some(Ref(m.vals, i)) if found else none()
+    B['HashMap::get'] = map_get
+    B['BTreeMap::get'] = map_get
+    B['HashMap::get_mut'] = map_get
+    B['BTreeMap::get_mut'] = map_get
+
+    def map_contains(e, a, c):
+        m = deref(a[0])
+        i, found = locate(e, m, deref(a[1]))
+        return found
+    for k in ('HashMap::contains_key', 'BTreeMap::contains_key', 'HashSet::contains', 'BTreeSet::contains'):
+        B[k] = map_contains
+
+    def map_remove(e, a, c):
+        m = deref(a[0])
+        i, found = locate(e, m, deref(a[1]))
+        if not found:
+            return none() if 'Map' in c else False
+        m.keys.pop(i)
+        v = m.vals.pop(i)
+        return some(v) if 'Map' in c else True
+    for k in ('HashMap::remove', 'BTreeMap::remove', 'HashSet::remove', 'BTreeSet::remove'):
+        B[k] = map_remove
+
+    def env_order(e, m):
+        # iteration order of a hashed container: chosen by the environment
+        n = len(m.keys)
+        idx = list(range(n))
+        if not getattr(m, 'hashed', False) or n < 2:
+            return idx
+        e.env_reads += 1
+        perms = list(_it.permutations(idx)) if n <= 3 else [tuple(idx), tuple(reversed(idx)), tuple(idx[1:] + idx[:1])]
+        k = e.choose(e.fresh_int('env_order_%d' % e.env_reads, 0, len(perms) - 1), list(range(len(perms))))
+        return list(perms[k])
+
+    def map_iter(what, by_ref):
+        def f(e, a, c):
+            m = deref(a[0])
+            order = env_order(e, m)
+            if what == 'values':
+                items = [m.vals[i] for i in order]
+                v = VecV(items)
+                return IterV('slice', vec=v, i=0, j=len(items), by_ref=by_ref)
+            if what == 'keys':
+                items = [m.keys[i] for i in order]
+                return IterV('slice', vec=VecV(items), i=0, j=len(items), by_ref=by_ref)
+            items = [Agg('tuple', None, [Ref(m.keys, i) if by_ref else m.keys[i], Ref(m.vals, i) if by_ref else m.vals[i]]) for i in order]
+            return IterV('slice', vec=VecV(items), i=0, j=len(items), by_ref=False)
+        return f
+    for ty in ('HashMap', 'BTreeMap'):
+        B[ty + '::iter'] = map_iter('pairs', True)
+        B[ty + '::iter_mut'] = map_iter('pairs', True)
+        B[ty + '::values'] = map_iter('values', True)
+        B[ty + '::values_mut'] = map_iter('values', True)
+        B[ty + '::keys'] = map_iter('keys', True)
+        B[ty + '::into_keys'] = map_iter('keys', False)
+    B['HashMap::into_values'] = map_iter('values', False)
+    for ty in ('HashSet', 'BTreeSet'):
+        B[ty + '::iter'] = map_iter('keys', True)
+    E.map_into_iter = map_iter('pairs', False)
+    E.set_into_iter = map_iter('keys', False)
+
+    def env_value(e, a, c):
+        e.env_reads += 1
+        return e.fresh_int('env_%d' % e.env_reads, 0, 2 ** 62)
+    for k in ('Instant::now', 'SystemTime::now', 'RandomState::new', 'std::process::id', 'std::thread::current', 'random'):
+        B[k] = env_value
+
+    def env_var(e, a, c):
+        e.env_reads += 1
+        return err('<env>') if e.branch(z3.Bool('env_var_unset_%d' % e.env_reads)) else ok('<env>')
+    B['std::env::var'] = env_var
+    B['env::var'] = env_var
+
     # ------------------------------------------------------------------ misc
     def mem_take(e, a, c):
         r = a[0]
@@ -481,6 +819,8 @@ def register(E):
         if c.endswith('::<()>'):
             return 1 if 'align_of' in c else 0
         e.host_reads += 1
+        if getattr(e, 'host_read_is_violation', False):
+            e.verify(False, "C18: the builder or a strategy read the host's own size/alignment of a type (%s)" % c[:80])
         return e.fresh_int('host_%d' % e.host_reads, 0, 2 ** 16)
     for k in ('std::mem::align_of', 'std::mem::size_of', 'core::mem::align_of', 'core::mem::size_of', 'align_of', 'size_of',
               'std::mem::size_of_val', 'std::mem::align_of_val'):
